@@ -183,7 +183,19 @@ func TestVerifC02Nsec(t *testing.T) {
 			return x
 		}
 		a, b := mk(), mk()
-		if r.Intn(8) == 0 && len(b) > 0 {
+		if r.Intn(5) == 0 && len(b) > 0 {
+			// prefix siblings: a is b with one label (any position) continued by a plain octet, the
+			// names otherwise re-spelled independently
+			i := r.Intn(len(b))
+			a = append(vC02Name(nil), b...)
+			a[i] = g.extend(b[i])
+			if r.Intn(2) == 0 {
+				a = vC02FlipSome(r, a)
+			}
+			if r.Intn(2) == 0 {
+				a, b = b, a
+			}
+		} else if r.Intn(8) == 0 && len(b) > 0 {
 			// a label that merely ends with the text of b's first label after a literal dot:
 			// "x\.b.c." is not below "b.c."
 			l := append(append(g.poolLabel(), '.'), b[0]...)
@@ -336,7 +348,7 @@ func vC02NsecCase(tr *vC02Trace, g *vC02Gen, z *vC02Zone, fixed []vC02FixedProbe
 	var child *vC02Zone
 	polluted := ""
 	if fixed == nil && r.Intn(100) < 35 {
-		switch r.Intn(8) {
+		switch r.Intn(11) {
 		case 0: // records of a sibling zone
 			if len(z.apex) > 0 {
 				sib := append([]byte(nil), z.apex[0]...)
@@ -349,20 +361,28 @@ func vC02NsecCase(tr *vC02Trace, g *vC02Gen, z *vC02Zone, fixed []vC02FixedProbe
 				}
 				polluted = "sibling"
 			}
-		case 1, 2: // records of a child zone below one of the delegations
+		case 1, 2, 8, 9, 10: // records of a child zone below one of the delegations (any of them)
+			var cuts []vC02Node
 			for _, nd := range z.nodes {
 				if vC02Has(nd.types, dns.TypeNS) && !vC02Has(nd.types, dns.TypeSOA) {
-					child = g.genZone(nd.name, 3)
-					for _, rc := range child.nsecChain() {
-						if r.Intn(3) > 0 {
-							rc.genuine = false
-							rc.note = "child"
-							recs = append(recs, rc)
-						}
-					}
-					polluted = "child"
-					break
+					cuts = append(cuts, nd)
 				}
+			}
+			if len(cuts) > 0 {
+				nd := cuts[r.Intn(len(cuts))]
+				child = g.genZone(nd.name, 1+r.Intn(4))
+				cc := child.nsecChain()
+				all := r.Intn(3) == 0
+				for i, rc := range cc {
+					// the chain-closing record (NextDomain = the child apex) is the one that reaches
+					// furthest: replayed in two mixtures out of three, the others at random
+					if all || r.Intn(2) == 0 || (i == len(cc)-1 && r.Intn(3) > 0) {
+						rc.genuine = false
+						rc.note = "child"
+						recs = append(recs, rc)
+					}
+				}
+				polluted = "child"
 			}
 		case 3: // forged: in-zone owner, NextDomain outside the zone
 			o := cands[r.Intn(len(cands))]
@@ -492,6 +512,13 @@ func vC02NsecCase(tr *vC02Trace, g *vC02Gen, z *vC02Zone, fixed []vC02FixedProbe
 	}
 
 	nprobes := 4 + r.Intn(4)
+	// records of another zone mixed in: what they must not touch are the zone's own names — ask about
+	// three more of its owners
+	ownProbes := 0
+	if polluted == "child" || polluted == "sibling" {
+		ownProbes = 3
+		nprobes += ownProbes
+	}
 	if fixed != nil {
 		nprobes = len(fixed)
 	}
@@ -502,7 +529,9 @@ func vC02NsecCase(tr *vC02Trace, g *vC02Gen, z *vC02Zone, fixed []vC02FixedProbe
 			p.q, p.qtype, p.qclass = fixed[i].q, fixed[i].qtype, 1
 		} else {
 			p.q = cands[r.Intn(len(cands))]
-			if len(recs) > 0 && r.Intn(5) == 0 { // interval end points of the records actually supplied
+			if i < ownProbes {
+				p.q = z.nodes[r.Intn(len(z.nodes))].name
+			} else if len(recs) > 0 && r.Intn(5) == 0 { // interval end points of the records actually supplied
 				rc := recs[r.Intn(len(recs))]
 				if r.Intn(2) == 0 {
 					p.q = rc.next
